@@ -1,6 +1,7 @@
 package main
 
 import (
+	"go/constant"
 	"fmt"
 	"go/token"
 	"strings"
@@ -383,7 +384,7 @@ func ruleTruncateOnClose(r *Report) {
 		o.OnlyAfterSuccess(rule, rule+"/recordio.FileWriter.Close/truncate-after-flush", fn, "Flush", F, "Truncate", T, nil)
 		// close only after truncate succeeded or the guard said nothing lingers
 		var guards []Edge
-		gT, gF := condEdges(fn, func(c ssa.Value) bool {
+		isGuard := func(c ssa.Value) bool {
 			bo, ok := c.(*ssa.BinOp)
 			if !ok {
 				return false
@@ -391,6 +392,23 @@ func ruleTruncateOnClose(r *Report) {
 			l := isFieldLoad("recordio.FileWriter", "largestOffset")
 			cu := isFieldLoad("recordio.FileWriter", "currentOffset")
 			return (l(bo.X) && cu(bo.Y)) || (l(bo.Y) && cu(bo.X))
+		}
+		gT, gF := condEdges(fn, func(c ssa.Value) bool {
+			if ph, isPhi := c.(*ssa.Phi); isPhi {
+				// the guard kept in a variable together with the aligned flag: `linger := w.aligned || largest > current`
+				n := 0
+				for _, e := range ph.Edges {
+					if k, isK := e.(*ssa.Const); isK && k.Value != nil && k.Value.Kind() == constant.Bool && constant.BoolVal(k.Value) {
+						continue
+					}
+					if !isGuard(e) {
+						return false
+					}
+					n++
+				}
+				return n == 1
+			}
+			return isGuard(c)
 		})
 		for _, e := range append(gT, gF...) {
 			leads := false
@@ -424,6 +442,8 @@ func ruleTruncateOnClose(r *Report) {
 					removed[Edge{t.Block, su}] = true
 				}
 			}
+			// (the test may be kept in a variable and looked at further down: `linger := w.aligned || …; if linger`)
+			pruneStoredConditions(fn, removed)
 			skipped := false
 			for _, c := range onSuccessPath(fn, C) {
 				if siteReachable(c, removed) {
@@ -448,7 +468,22 @@ func ruleTruncateOnClose(r *Report) {
 				continue
 			}
 			bo, ok := iff.Cond.(*ssa.BinOp)
-			if !ok {
+			viaStored := false
+			if ph, isPhi := iff.Cond.(*ssa.Phi); isPhi && !ok {
+				// a condition kept in a variable, `linger := aligned || largest > current`: true whenever the comparison is
+				for _, e := range ph.Edges {
+					if k, isK := e.(*ssa.Const); isK && k.Value != nil && k.Value.Kind() == constant.Bool && constant.BoolVal(k.Value) {
+						continue
+					}
+					if eb, isB := e.(*ssa.BinOp); isB && bo == nil {
+						bo, ok, viaStored = eb, true, true
+					} else {
+						ok = false
+						break
+					}
+				}
+			}
+			if !ok || bo == nil {
 				continue
 			}
 			l := isFieldLoad("recordio.FileWriter", "largestOffset")
@@ -460,6 +495,9 @@ func ruleTruncateOnClose(r *Report) {
 			case l(bo.X) && cu(bo.Y) && bo.Op == token.LEQ, cu(bo.X) && l(bo.Y) && bo.Op == token.GEQ:
 				trueMeansLinger = false
 			default:
+				continue
+			}
+			if viaStored && !trueMeansLinger {
 				continue
 			}
 			su := b.Succs[1]
